@@ -253,13 +253,13 @@ void vf_harness()
 ALLOC_HOOK = ("extern int g_records_ok;\n#define VF_ALLOC_HOOK(k) __CPROVER_assert((k) <= g_records_ok || (k) <= (1 << 20), \"a container is sized from a file count only if "
               "that many records were read or the count was validated against a limit (a short file cannot force a huge allocation)\")\n")
 READERS = """
-int g_records_ok;
+int g_records_ok; int g_lines_ok;
 bool VF_read_int(std::istream& is, const String& title, int& val) { bool ok = nondet_bool(); if (ok) { val = nondet_int(); g_records_ok = g_records_ok + 1; } return ok; }
 bool VF_read_double(std::istream& is, const String& title, double& val) { bool ok = nondet_bool(); if (ok) { val = nondet_double(); g_records_ok = g_records_ok + 1; } return ok; }
 /* contract of _recordReadVec (unit C09.recordReadVec): any requested count is accepted; true only if exactly nvalues values were stored
    (so nvalues >= 0), the vector is empty after a failure; the destination is not sized before the values were read */
 bool VF_readVec_double(std::istream& is, const String& title, VectorDouble& vec, int nvalues)
-{ bool ok = nondet_bool() && nvalues >= 0; if (ok) { vec.n = nvalues; g_records_ok = g_records_ok + (nvalues < 1000 ? nvalues : 1000); } else vec.clear(); return ok; }
+{ bool ok = nondet_bool() && nvalues >= 0; if (ok) { vec.n = nvalues; g_lines_ok = g_lines_ok + 1; g_records_ok = g_records_ok + (nvalues < 1000 ? nvalues : 1000); } else vec.clear(); return ok; }
 /* contract of _tableRead(is, title, ntab, tab): writes tab[0..ntab-1] */
 int g_tab_room;
 bool VF_tableRead(std::istream& is, const String& title, int ntab, double* tab) { __CPROVER_assert(ntab <= g_tab_room, "_tableRead is given a buffer holding ntab values"); return nondet_bool(); }
@@ -373,6 +373,42 @@ void vf_harness()
 
 
 
+def unit_dbgrapho_deserialize():
+    f = Fn("DbGraphO::_deserialize", "src/Db/DbGraphO.cpp", r"^bool DbGraphO::_deserialize\(std::istream& is, bool verbose\)\s*$", rewrites=RWC)
+    classes = """
+int g_adds; int g_nech; int g_reset_done;
+struct NF_Triplet { int row[4]; int col[4]; int n; NF_Triplet() : n(0) {}
+  void add(int irow, int icol, double value)
+  { g_adds = g_adds + 1; __CPROVER_assert(g_adds <= g_lines_ok, "an arc is stored only for a line that was read (a short file cannot make the arc list grow)");
+    if (n < 4) { row[n] = irow; col[n] = icol; } n = n + 1; }
+  int getNumber() const { return n; }
+  int getRow(int i) const { __CPROVER_assert(0 <= i && i < n, "arc index inside the list"); return i < 4 ? row[i] : nondet_int(); }
+  int getCol(int i) const { __CPROVER_assert(0 <= i && i < n, "arc index inside the list"); return i < 4 ? col[i] : nondet_int(); } };
+struct MatrixSparse { void resetFromTriplet(const NF_Triplet& t)
+  { g_reset_done = 1;
+    for (int i = 0; i < 3; i++) if (i < t.n) __CPROVER_assert(0 <= t.row[i] && t.row[i] < g_nech && 0 <= t.col[i] && t.col[i] < g_nech,
+                                                              "the arc matrix is built only from arcs connecting two existing samples (indices from the file validated)"); } };
+class Db { public: bool _deserialize(std::istream& is, bool verbose) { g_nech = nondet_int(); __CPROVER_assume(g_nech >= 0); return nondet_bool(); }
+  int getSampleNumber() const { return g_nech; } };
+class DbGraphO : public Db { public: MatrixSparse _downArcs; bool _deserialize(std::istream& is, bool verbose); };
+"""
+    h = """
+void vf_harness()
+{
+  std::istream is; DbGraphO g; g_records_ok = 0; g_lines_ok = 0; g_writes = 0; g_adds = 0; g_nech = 0; g_reset_done = 0;
+  bool r = g._deserialize(is, false);
+  __CPROVER_assert(!r || g_reset_done, "a graph reported as loaded has its arc matrix built");
+  VF_REACH();
+}
+"""
+    u = count_unit("DbGraphO_deserialize", [f], classes, h,
+                   "DbGraphO::_deserialize on arbitrary content: the arc buffer is read only after a successful read (index inside the vector), an arc is stored "
+                   "only for a line that was actually read (the arc list cannot outgrow the file), and the sparse arc matrix is built only from arcs whose two "
+                   "indices lie inside the samples of the table part (first 3 arcs tracked)",
+                   {"fn": "DbGraphO::_deserialize", "rx": r"tab\[2\]", "rp": "tab[3]", "expect": r"assertion|FAIL"})
+    return u
+
+
 def unit_rule_setmainnode():
     f = Fn("Rule::setMainNodeFromNodNames(nodes)", "src/LithoRule/Rule.cpp", r"^int Rule::setMainNodeFromNodNames\(const VectorInt& nodes\)\s*$")
     pre = """
@@ -429,7 +465,7 @@ NMAXN_RULE = 3
 
 def units(tier):
     return [unit_rule_setmainnode(), unit_readvec(), unit_readvec_inplace(), unit_tableread(), unit_db_deserialize(), unit_db_deserialize(True), unit_dbgrid_deserialize(),
-            unit_polyline_deserialize(), unit_anamhermite_deserialize(), unit_rule_deserialize(), unit_table_deserialize()]
+            unit_polyline_deserialize(), unit_anamhermite_deserialize(), unit_rule_deserialize(), unit_table_deserialize(), unit_dbgrapho_deserialize()]
 
 
 META = {
@@ -438,13 +474,14 @@ META = {
                     "file contents / truncation points / corruptions whose reading needs at most the stated number of stream operations."),
     "trusted_base": ["CBMC 6.11 C++ front end", "stub iostream/String/VectorT classes (stubs/serial_stub.hpp)"],
     "assumptions": [],
-    "not_covered": ["CSV tokeniser (csv_table_read)", "grid exchange formats", "class-level _deserialize functions (Db, DbGrid, Vario, Model): "
-                    "dimension fields used for allocation", "hangs / memory exhaustion"],
+    "not_covered": ["CSV tokeniser (csv_table_read)", "grid exchange formats", "Vario / Model / mesh / remaining anamorphosis deserialisers",
+                    "memory exhaustion where the callee needs a pre-sized buffer (AnamHermite, Table) or where the count is valid but huge (Db)", "hangs"],
 }
 MANIFEST = {
     "category": "other",
-    "text": ("Bounded check (labelled bounded, not proof) of the neutral-file record readers on a nondeterministic stream: no write outside the destination, "
-             "success reported only when all requested values were stored, failure propagated."),
-    "note": "Bounded by a stream-operation budget; CSV / grid formats / class-level deserialisers not covered.",
+    "text": ("Bounded check (labelled bounded, not proof) of the neutral-file record readers on a nondeterministic stream (no write outside the destination, "
+             "never sized by a negative or unbacked count, success only when all requested values were stored, failure propagated) and of the class-level "
+             "deserialisers Db, DbGrid, DbGraphO, PolyLine2D, AnamHermite, Rule (+ arbitrary node tables), Table on arbitrary counts and failing reads."),
+    "note": "Bounded by a stream-operation budget / loop unwinding; CSV, grid formats, Vario/Model deserialisers not covered.",
     "design_ref": "DESIGN.md 3 C09",
 }
